@@ -44,7 +44,7 @@ pub fn encode_ty(ty: &tast::Ty) -> String {
 }
 
 pub fn go_ident(name: &str) -> String {
-    if is_valid_go_ident(name) && !is_go_keyword(name) {
+    if is_valid_go_ident(name) && !is_go_keyword(name) && !is_go_predeclared(name) {
         return name.to_string();
     }
     let mut out = String::from("_goml_");
@@ -81,6 +81,43 @@ fn is_valid_go_ident(s: &str) -> bool {
         return false;
     }
     rest.iter().all(|b| b.is_ascii_alphanumeric() || *b == b'_')
+}
+
+fn is_go_predeclared(s: &str) -> bool {
+    matches!(
+        s,
+        "any"
+            | "append"
+            | "byte"
+            | "cap"
+            | "clear"
+            | "close"
+            | "comparable"
+            | "complex"
+            | "complex128"
+            | "complex64"
+            | "copy"
+            | "delete"
+            | "error"
+            | "fmt"
+            | "imag"
+            | "int"
+            | "iota"
+            | "len"
+            | "make"
+            | "max"
+            | "min"
+            | "new"
+            | "nil"
+            | "panic"
+            | "print"
+            | "println"
+            | "real"
+            | "recover"
+            | "rune"
+            | "uint"
+            | "uintptr"
+    )
 }
 
 fn is_go_keyword(s: &str) -> bool {
